@@ -251,6 +251,8 @@ COMBINATORS = {
     "std::iter::Iterator::all": "iter_all",
     "std::iter::Iterator::any": "iter_any",
     "std::iter::Iterator::fold": "iter_fold",
+    "std::iter::Iterator::sum": "iter_sum",
+    "std::iter::Iterator::try_for_each": "iter_try_for_each",
 }
 
 
@@ -272,9 +274,9 @@ def combinator_of(t):
     if n in COMBINATORS:
         return COMBINATORS[n]
     # `<std::slice::Iter<'a, T> as std::iter::Iterator>::for_each` and friends
-    m = re.match(r"^<.* as std::iter::Iterator>::(for_each|all|any|fold)$", c)
+    m = re.match(r"^<.* as std::iter::Iterator>::(for_each|all|any|fold|sum|try_for_each)$", c)
     if m:
-        return {"for_each": "for_each", "all": "iter_all", "any": "iter_any", "fold": "iter_fold"}[m.group(1)]
+        return {"for_each": "for_each", "all": "iter_all", "any": "iter_any", "fold": "iter_fold", "sum": "iter_sum", "try_for_each": "iter_try_for_each"}[m.group(1)]
     return None
 
 
@@ -605,6 +607,77 @@ def _desugar_one(S, bi, tpl, closure_lookup):
         stmts, term = switch_on(recv, rty, [(hit_idx, e_hit), (miss_idx, e_miss)], unreachable())
         bb["stmts"] += stmts
         bb["term"] = term
+        return True
+
+    if tpl == "iter_try_for_each":
+        # it.try_for_each(|x| -> Result<(), E> { .. })  ==  for x in it { body(x)?; }  Ok(())
+        c = _closure_arg(S, args[1], closure_lookup) if len(args) == 2 else None
+        if c is None:
+            return False
+        cb, caps = c
+        rty_ = cb["locals"][0]["ty"]
+        if not rty_.startswith("std::result::Result<(),") or len(cb["locals"]) < 3:
+            return False
+        ety = cb["locals"][2]["ty"]
+        nxt = S.new_local("std::option::Option<%s>" % ety)
+        entry, loff, rets = _splice_closure(S, cb, caps, [mv(_payload(P(nxt), OPTION, "Some"))], sp)
+        head = S.new_block()
+        sw = S.new_block()
+        brk = S.new_block([assign(copy.deepcopy(dest), use(mv(P(loff))), sp)], goto(cont, sp))
+        for rb in rets:
+            stmts_, term_ = switch_on(P(loff), rty_, [(0, head), (1, brk)], unreachable())
+            S.blocks[rb]["stmts"] += stmts_
+            S.blocks[rb]["term"] = term_
+        done = S.new_block([assign(copy.deepcopy(dest), {"k": "agg", "ak": "adt", "adt": RESULT, "variant": "Ok", "fnames": ["0"],
+                                                         "fields": [{"k": "const", "ty": "()", "s": "()"}]}, sp)], goto(cont, sp))
+        S.blocks[head]["term"] = {"k": "call", "callee": "std::iter::Iterator::next", "item": "next", "gargs": [rty], "trait": "std::iter::Iterator",
+                                  "resolved": "std::iter::Iterator::next", "rkind": "item", "args": [copy.deepcopy(args[0])], "argtys": [rty],
+                                  "dest": P(nxt), "destty": "std::option::Option<%s>" % ety, "t": sw, "uw": None, "fsp": sp, "sp": sp, "desugared": tpl}
+        stmts, term = switch_on(P(nxt), "std::option::Option<%s>" % ety, [(1, entry), (0, done)], unreachable())
+        S.blocks[sw]["stmts"] += stmts
+        S.blocks[sw]["term"] = term
+        bb["term"] = goto(head, sp)
+        return True
+
+    if tpl == "iter_sum":
+        # it.map(g).sum()  ==  let mut acc = 0; for x in it { acc = acc + g(x) }; acc   (integer sums only)
+        dty = t.get("destty", "")
+        if dty not in ("usize", "u64", "u32", "i64", "i32", "u128", "i128", "isize", "u16", "u8", "i16", "i8") or len(args) != 1:
+            return False
+        src_op, src_ty, mapper = args[0], rty, None
+        if args[0].get("k") in ("move", "copy") and not args[0]["pl"]["p"]:
+            d_ = _single_def(S, args[0]["pl"]["l"])
+            if d_ is not None and d_[1] is None and combinator_call_name(d_[2]) == "map" and len(d_[2]["args"]) == 2:
+                mc = _closure_arg(S, d_[2]["args"][1], closure_lookup)
+                if mc is not None:
+                    mapper, src_op, src_ty = mc, d_[2]["args"][0], (d_[2].get("argtys") or [rty])[0]
+        if mapper is None:
+            return False
+        ety = mapper[0]["locals"][2]["ty"] if len(mapper[0]["locals"]) > 2 else "_"
+        it = S.new_local(src_ty, user=False)
+        acc = S.new_local(dty, user=True)
+        S.debug.append({"name": "sum", "pl": P(acc)})
+        mb_, _msi, mt_ = d_
+        S.blocks[mb_]["stmts"].append(assign(P(it), use(copy.deepcopy(src_op)), sp))
+        S.blocks[mb_]["term"] = goto(mt_["t"], sp)
+        bb["stmts"].append(assign(P(acc), use({"k": "const", "ty": dty, "v": 0}), sp))
+        nxt = S.new_local("std::option::Option<%s>" % ety)
+        ref = S.new_local("&mut " + src_ty)
+        head = S.new_block()
+        sw = S.new_block()
+        m_entry, m_loff, m_rets = _splice_closure(S, mapper[0], mapper[1], [mv(_payload(P(nxt), OPTION, "Some"))], sp)
+        for rb in m_rets:
+            S.blocks[rb]["stmts"].append(assign(P(acc), {"k": "binop", "op": "Add", "a": {"k": "copy", "pl": P(acc)}, "b": mv(P(m_loff))}, sp))
+            S.blocks[rb]["term"] = goto(head, sp)
+        done = S.new_block([assign(copy.deepcopy(dest), use(mv(P(acc))), sp)], goto(cont, sp))
+        S.blocks[head]["stmts"].append(assign(P(ref), {"k": "ref", "bk": "mut", "pl": P(it)}, sp))
+        S.blocks[head]["term"] = {"k": "call", "callee": "std::iter::Iterator::next", "item": "next", "gargs": [src_ty], "trait": "std::iter::Iterator",
+                                  "resolved": "std::iter::Iterator::next", "rkind": "item", "args": [mv(P(ref))], "argtys": ["&mut " + src_ty],
+                                  "dest": P(nxt), "destty": "std::option::Option<%s>" % ety, "t": sw, "uw": None, "fsp": sp, "sp": sp, "desugared": tpl}
+        stmts, term = switch_on(P(nxt), "std::option::Option<%s>" % ety, [(1, m_entry), (0, done)], unreachable())
+        S.blocks[sw]["stmts"] += stmts
+        S.blocks[sw]["term"] = term
+        bb["term"] = goto(head, sp)
         return True
 
     if tpl == "iter_fold":
